@@ -248,7 +248,7 @@ fn grid_specs(max_p: usize) -> Vec<NodeSpec> {
             for &(a, b, c) in &tuples {
                 for &m in &modes {
                     for &mu in &mults {
-                        v.push(NodeSpec { kind: k, params: Params::new(a, b, c, mu), mode: m });
+                        v.push(NodeSpec { kind: k, params: Params::new(a, b, c, mu), mode: m, dflt: false });
                     }
                 }
             }
